@@ -17,11 +17,19 @@ def metric_member(desc, tier, seed):
     always = set.intersection(*[set(c) for c in closures]) if closures else set()
 
     def mk(mode):
+        nonlocal b
+        if mode == 'prestored':
+            # values recorded on the design-space graph itself before any architecture is derived (derived graphs
+            # inherit them): an absent constraint must still report exactly its reference value
+            b = gen.Built(desc)
+            for mnode in b.dsg.metric_nodes:
+                b.dsg.set_metric_value(mnode, -0.5)
+
         class Ev(DSGEvaluator):
             def _evaluate(self, dsg, metric_nodes):
                 out = {}
                 for i, m in enumerate(sorted(metric_nodes, key=lambda n: n.name)):
-                    if mode == 'complete' or (mode == 'partial' and i % 2 == 0):
+                    if mode in ('complete', 'prestored') or (mode == 'partial' and i % 2 == 0):
                         out[m] = 10.0 + i
                     elif mode == 'nan':
                         out[m] = math.nan
@@ -58,7 +66,7 @@ def metric_member(desc, tier, seed):
     must_reject = [n for n, r in allowed.items() if r == {'AMBIGUOUS'}]
     may_reject = [n for n, r in allowed.items() if 'AMBIGUOUS' in r]
     spec = {n: r for n, r in allowed.items()}
-    for mode in ('complete', 'partial', 'nan', 'zero'):
+    for mode in ('complete', 'partial', 'nan', 'zero', 'prestored'):
         wit = ['COMPLETE', mode]
         nt = (desc.label, mode)
         try:
@@ -95,7 +103,7 @@ def metric_member(desc, tier, seed):
 
             def expected(name):
                 i = idx[name]
-                if mode == 'complete' or (mode == 'partial' and i % 2 == 0):
+                if mode in ('complete', 'prestored') or (mode == 'partial' and i % 2 == 0):
                     return 10.0 + i
                 if mode == 'zero':
                     return 0.0
